@@ -82,7 +82,8 @@ def pair(path):
 
 
 def enc(pairid, text):
-    return "ENC[" + pairid + "," + text[::-1] + "]"
+    # the payload is hex so that it survives the whitespace/line-break normalisation real ciphertext gets
+    return "ENC[" + pairid + "," + text.encode("utf-8").hex()[::-1] + "]"
 
 
 def fake_eyaml_run(cmd, stdout=None, input=None, check=True, shell=False):
@@ -102,5 +103,5 @@ def fake_eyaml_run(cmd, stdout=None, input=None, check=True, shell=False):
         p, payload = text[4:-1].split(",", 1)
         if p != pair(prv[0]):
             raise CalledProcessError(1, cmd)
-        out = payload[::-1]
+        out = bytes.fromhex(payload[::-1]).decode("utf-8")
     return SimpleNamespace(stdout=out.encode("ascii"))
